@@ -3,6 +3,7 @@
 
 #include "nmtools/meta.hpp"
 #include "nmtools/array/index/compress.hpp"
+#include "nmtools/array/index/wrap_axis.hpp"
 #include "nmtools/array/index/product.hpp"
 #include "nmtools/array/view/decorator.hpp"
 
@@ -64,7 +65,10 @@ namespace nmtools::view
     template <typename condition_t, typename array_t, typename axis_t>
     constexpr auto compress(const condition_t& condition, const array_t& array, axis_t axis)
     {
-        return decorator_t<compress_t,condition_t,array_t,axis_t>{{condition,array,axis}};
+        // a negative axis counts from the end
+        auto n_axis = index::wrap_axis(axis,dim<true>(array));
+        using n_axis_t = decltype(n_axis);
+        return decorator_t<compress_t,condition_t,array_t,n_axis_t>{{condition,array,n_axis}};
     } // compress
 } // namespace nmtools::view
 
